@@ -50,6 +50,9 @@ M = [
  ('every caller waiting on a shared Deferred gets its result', 'C10', "an exported method returns ONE Deferred to two concurrent calls and the Deferred fires with a value: the second caller gets org.txdbus.PythonException.MarshallingError instead of the value"),
  ('known header fields hold values of the wrong kind is rejected', 'C05', "a peer of the built-in bus sends a well-framed call for another client whose MEMBER header field is an array of strings (or INTERFACE a boolean ...): the bus forwards it, the addressed client's dataReceived raises TypeError (unhashable type: 'list') and that client - not the sender - loses its connection"),
  ('SIGNATURE header field longer than 255 characters', 'C05', "a message whose SIGNATURE header field arrives as a STRING of 804 (3204) characters - 'a(' + '()' * 400 + 'y)' - in front of a 400-element array: every element costs one step per empty struct, 700000 interpreter calls for 4 KB and 23 million (19 s) for 16 KB: decoding work quadratic in the length of the message"),
+ ('tcp address without a host means the local one', 'C09', "address list 'tcp:port=42;unix:path=/t/b' (no host) or 'tcp:host=h.x;...' (no port) or a non-numeric port: KeyError / ValueError out of getDBusEndpoints - connect() raises instead of returning a Deferred and the reachable address behind it is never tried"),
+ ("the bus's own name, is refused", 'C13', "RequestName('org.freedesktop.DBus') by a client is answered 1 (primary owner) with NameAcquired; GetNameOwner / ListQueuedOwners then name the client while calls to that name are still answered by the bus: the name has two owners and the reply code misstates the caller's relation to it"),
+ ('asking for dbusCaller gets it also when it is wrapped', 'C10', "an exported method written with @defer.inlineCallbacks (or declaring dbusCaller keyword-only) and asking for dbusCaller=None runs with dbusCaller=None: the caller's unique name is not passed although the implementation asks for it"),
  ('RequestName queues a requester', 'C13', 'request without the replace flag refused instead of queued; a waiting client requesting again queued twice'),
  ('waiting for a name leaves the queue', 'C13', 'ReleaseName by a queued client answered NOT_OWNER and left it queued; a queued client that disconnected later became a dead owner'),
 ]
